@@ -652,6 +652,8 @@ def eval_steps(wd, name, imports, scenarios_terms, checker, defs="", shards=NPRO
     return sorted(res)
 
 
+VALUATION_SEARCH_BUDGET_S = 60
+
 QUIRK_FLAGS = ["q_init_no_bump", "q_jura_pos_stuck", "q_jura_sell_triggers_inverted", "q_send_dropped_future",
                "q_limit_panics", "q_liq_ceil_precedence", "q_diff_break", "q_diff_direction_flip",
                "q_strategy_ncf_self_add", "q_maxdd_last_positions", "q_liq_fail_debit",
@@ -689,8 +691,14 @@ def find_valuation(eval_fn, relevant, base):
     if not m0:
         return base, m0
     import itertools
+    # single flips always (a recorded finding repaired, a repaired defect back); combinations of two or three only
+    # while the search stays cheap: when no valuation is found the property is "not shown" either way and the time is
+    # better spent on the search for a failing input
+    t0 = time.time()
     for r in (1, 2, 3):
         for combo in itertools.combinations(relevant, r):
+            if r > 1 and time.time() - t0 > VALUATION_SEARCH_BUDGET_S:
+                return None, m0
             v = base.symmetric_difference(combo)
             if not eval_fn(v):
                 return v, m0
